@@ -51,7 +51,7 @@ def do_case(ctx, inp):
 
 
 def run(ctx):
-    n_models = (80 if ctx.quick else 1200) * (3 if ctx.search else 1)
+    n_models = (200 if ctx.quick else 1500) * (3 if ctx.search else 1)
     for _ in range(n_models):
         a, o, t = gen_valid(ctx.rng, ctx.quick)
         do_case(ctx, {"ast": a})
